@@ -83,3 +83,66 @@ extern "C" void h_gen_cb() {
     vf_choice_end();
     vf_witness();
 }
+
+// ---------------------------------------------------------------------------------------------------------------------------
+// The same consumer over the future interface: every request is `g(arg)` (a future<int>), a callback awaiter is subscribed to the returned future; when it is
+// notified the consumer reads the value and issues its next request inside the notification (mode 0) or after the notification has returned (mode 1).
+namespace {
+struct FCons : awaiter {
+    G *g = nullptr; int mode = 0;
+    int args[MAXN + 2]; int nreq = 0;
+    int got[MAXN + 2]; int ngot = 0; int ended = 0; int want = 0; int notifications = 0;
+    future<int> fut[MAXN + 2];
+    static suspend_point<void> fn(awaiter *a, void *) noexcept { static_cast<FCons *>(a)->notified(); return {}; }
+    FCons() { set_resume_fn(&fn); }
+    void request() {
+        const int i = nreq++;
+        VF_ASSERT(i < MAXN + 2, "VF_SPEC too many requests");
+        fut[i] << [&] { return (*g)(args[i]); };
+        if (!fut[i].operator co_await().subscribe(this)) notified();     // already resolved: nobody will notify
+    }
+    void notified() {
+        notifications++;
+        future<int> &f = fut[nreq - 1];
+        VF_ASSERT(f.ready(), "C13 the consumer is notified only when the requested step is complete");
+        if (!f.has_value()) { ended++; return; }
+        got[ngot++] = f.value();
+        if (mode == 0) request(); else want = 1;
+    }
+};
+}
+
+extern "C" void h_gen_fut_cb() {
+    vf_warmup();
+    long base = vf_live_allocs();
+    {
+        Env e; FCons c;
+        c.mode = vf_choice(2);
+        e.n = vf_choice(MAXN + 1);
+        for (int i = 0; i < e.n; i++) { e.pend[i] = vf_choice(2); e.val[i] = nondet_int(); if (e.pend[i]) e.proms[i] = e.futs[i].get_promise(); }
+        for (int i = 0; i < MAXN + 2; i++) c.args[i] = nondet_int();
+        {
+            G g = body(&e);
+            c.g = &g;
+            c.request();
+            for (int step = 0; step < 2 * MAXN + 2; step++) {
+                bool progress = false;
+                if (c.want) { c.want = 0; c.request(); progress = true; }
+                else for (int i = 0; i < e.n && !progress; i++) if (e.pend[i] && e.proms[i]) { e.proms[i](e.val[i]); progress = true; }
+                if (!progress) break;
+            }
+            VF_ASSERT(c.ended == 1 && g.done(), "C13 the end of the sequence is indicated exactly once when the body has returned");
+            VF_ASSERT(c.ngot == e.n, "C13 the consumer obtains exactly the yielded values");
+            VF_ASSERT(c.notifications == c.nreq, "C13 every requested step completes its future exactly once");
+            VF_ASSERT(e.nseen == e.n + 1, "VF_SPEC the body ran to its end");
+            for (int i = 0; i <= e.n; i++) VF_ASSERT(e.seen_arg[i] == c.args[i], "C13 the body receives the argument passed with the call that resumed it");
+            for (int i = 0; i < e.n; i++) {
+                VF_ASSERT(c.got[i] == uadd(uadd(c.args[i], c.args[i]), e.pend[i] ? e.val[i] : 0), "C13 the consumer obtains exactly the yielded values, in order");
+                vf_out(c.got[i] & 0xffff);
+            }
+        }
+    }
+    VF_ASSERT(vf_live_allocs() == base, "C13 nothing leaked");
+    vf_choice_end();
+    vf_witness();
+}
